@@ -57,8 +57,6 @@ META['level_text'] += (' The friction term is proved to enter every pump pressur
                        'pressure and clamped pumping power of both models never grow with the diameter under the same premise '
                        '(C15_prod/inj_pump_vs_diameter_partial, C15_impedance_vs_friction); tied by calling the four real hydraulic functions '
                        'with and without friction over diameter sweeps and by whole-run pairs differing in one diameter.')
-_ = {
-}
 
 TOL = F(1, 10 ** 9)
 TINY = F(1, 10 ** 12)
